@@ -168,6 +168,40 @@ func gen(r *rand.Rand, idx int, tier string) Input {
 	if lib.Chance(r, 0.5) {
 		in.Meta.Rate = uint32(lib.Pick(r, []int{0, 1, 100, 1000}))
 	}
+	// long metadata (4% of the cases): the length-prefixed JSON block must survive when it is longer than the
+	// 4096-byte bufio buffer Deserialize wraps around its input (lengths around 2 KB, 4 KB, 8 KB, up to ~10 KB,
+	// in one field or spread over several), with small and large trees alike
+	if lib.Chance(r, 0.04) {
+		long := func(n int) []byte {
+			b := make([]byte, 0, n+8)
+			for len(b) < n {
+				switch r.Intn(40) {
+				case 0:
+					b = append(b, '"')
+				case 1:
+					b = append(b, []byte("é")...)
+				case 2:
+					b = append(b, '<')
+				default:
+					b = append(b, byte('a'+r.Intn(26)))
+				}
+			}
+			return b
+		}
+		n := lib.Pick(r, []int{2000, 3900, 4000, 4030, 4060, 4090, 4096, 4100, 4200, 5000, 8100, 8192, 8300, 10000})
+		switch r.Intn(5) {
+		case 0:
+			in.Meta.Spy = long(n)
+		case 1:
+			in.Meta.Units = long(n)
+		case 2:
+			in.Meta.Agg = long(n)
+		case 3: // the demo's shape: long spy name and long units
+			in.Meta.Spy, in.Meta.Units = long(n*2/3), long(n/3)
+		default:
+			in.Meta.Spy, in.Meta.Units, in.Meta.Agg = long(n/3), long(n/3), long(n/3)
+		}
+	}
 	// several SetMetadata calls before the save, each changing exactly one field of the previous call
 	// (all four fields in turn, random order), interleaved with the writes as Storage.Put does
 	{
@@ -346,7 +380,8 @@ func run(in Input) (res lib.Result) {
 	return lib.Result{
 		Coq:        coq,
 		NonTrivial: levels >= 3 && ncuts >= 1 && len(in.Ops) >= 3,
-		Feat:       map[string]interface{}{"levels": levels, "nodes": nodes, "cuts": ncuts, "ops": len(in.Ops), "op_kinds": kinds, "bytes": len(b0), "meta_class": metaClass, "setmeta_before_save": nset + 1},
+		Feat:       map[string]interface{}{"levels": levels, "nodes": nodes, "cuts": ncuts, "ops": len(in.Ops), "op_kinds": kinds, "bytes": len(b0), "meta_class": metaClass, "setmeta_before_save": nset + 1,
+			"meta_len": len(in.Meta.Spy) + len(in.Meta.Units) + len(in.Meta.Agg)},
 		Obs:        map[string]interface{}{"bytes": len(b0), "nodes": nodes, "levels": levels},
 	}
 }
